@@ -2,7 +2,7 @@
    Field tags (-100-i) are interleaved so that a disagreement can be located. *)
 From stdpp Require Import gmap.
 From Coq Require Import ZArith List.
-From V Require Import Base.Codec Base.Res Base.ResCodec C16.SatModel C16.Laws C16.DraModel C16.QuantModel C16.DraLaws C16.OrderLemmas.
+From V Require Import Base.Codec Base.Res Base.ResCodec C16.SatModel C16.Laws C16.DraModel C16.QuantModel C16.DraLaws C16.OrderLemmas C16.FloatMini.
 Import ListNotations.
 Open Scope Z_scope.
 
@@ -56,6 +56,13 @@ Definition unsentinel_res (r : res) : res :=
   mkRes (unsentinel (cpu r)) (unsentinel (mem r))
         (match sc r with None => None | Some m => Some (unsentinel <$> m) end).
 
+(* a value of the float mini-model on the wire: 0 v = the integer v, 1 = MaxFloat64, 2 / 3 = +-Inf, 4 = NaN *)
+Definition eFl (a : fl) : list Z :=
+  match a with
+  | Fin z => if z =? max_float then [1; 0] else [0; z]
+  | PInf => [2; 0] | NInf => [3; 0] | FNaN => [4; 0]
+  end.
+
 Definition entry (sel : Z) (toks : list Z) : list Z :=
   match sel with
   | 1 => match run_dec (dPair dZ dZ) toks with
@@ -90,6 +97,13 @@ Definition entry (sel : Z) (toks : list Z) : list Z :=
   (* SchedulerCache.buildTaskDRAInfo: the aggregated and the per-claim DRA requests of a pod *)
   | 9 => match run_dec dBuildInput toks with
          | Some (claims, refs) => eBuild (build_task_dra claims refs) | None => bad_input end
+  (* the float mini-model against the real float64 fields: s = x + y (Resource.Add), s - y (SubWithoutAssert),
+     s.LessEqual(s) — on integer-valued floats incl. 2^53 scale and the MaxFloat64 sentinel *)
+  | 14 => match run_dec (dPair dZ dZ) toks with
+          | Some (x, y) => let a := Fin (unsentinel x) in let b := Fin (unsentinel y) in
+                           let s := fadd a b in
+                           tag 1 ++ eFl s ++ tag 2 ++ eFl (fsub s b) ++ tag 3 ++ eBool (fle 1 s s)
+          | None => bad_input end
   | 10 => match run_dec (let* e := dZ in let* r := dRes in let* rr := dRes in let* q := dRes in ret (e, r, rr, q)) toks with
           | Some (e, r, rr, q) => res_all e r rr q
           | None => bad_input end
